@@ -327,6 +327,9 @@ func c17GenOp(t *rapid.T, small gen.Opts) c17Op {
 		op.ChildE, op.ChildI = rapid.IntRange(0, 2).Draw(t, "childencr"), rapid.IntRange(0, 3).Draw(t, "childinteg")
 		op.Nonce = gen.BytesLen(t, "nonce", 0, 256, 0, 32, 64)
 	}
+	if (op.Op == "protect" || op.Op == "unprotect-genuine") && rapid.IntRange(0, 3).Draw(t, "semantic") == 3 {
+		op.Msg = gen.Semantic(t) // a message that means something: what an SA carries is none of its business
+	}
 	if op.Msg.Payloads != nil || op.Op == "protect" || op.Op[:9] == "unprotect" && op.Op != "unprotect-garbage" {
 		op.Producer = rapid.SampledFrom([]string{"fresh-lib", "ref"}).Draw(t, "producer")
 		op.IV = gen.Fill(t, "iv", 16)
